@@ -59,7 +59,11 @@ pub fn check_file(a: &Analysis, obs: &mut Obs) -> Vec<Violation> {
         track_durs.push((t.track_id, sum));
         if exact && n >= 2 {
             for i in 0..n - 1 {
-                let want = exp_dts[i + 1].unwrap() - exp_dts[i].unwrap();
+                let Some(want) = exp_dts[i + 1].unwrap().checked_sub(exp_dts[i].unwrap()) else {
+                    // accepted samples whose submitted times go backwards: no 32-bit delta can be exact
+                    out.push(v(format!("{}|stts.delta|accepted-times-decrease", name), format!("samples {}..{}: submitted ticks {:?} then {:?}", i + 1, i + 2, exp_dts[i], exp_dts[i + 1])));
+                    break;
+                };
                 if want > u32::MAX as u64 {
                     out.push(v(format!("{}|stts.delta|gap-does-not-fit-32-bits-but-write-accepted", name), format!("samples {}..{}: gap {} ticks", i + 1, i + 2, want)));
                     break;
@@ -221,7 +225,9 @@ pub fn check_frag(h: &FHistory, ex: &FExec, obs: &mut Obs) -> Vec<Violation> {
                 if f.samples.len() == queue.len() {
                     for k in 0..queue.len() {
                         if k + 1 < queue.len() {
-                            let want = queue[k + 1].1 - queue[k].1;
+                            // (accepted decode times going backwards would be C10's violation; no
+                            // duration can be exact then)
+                            let want = queue[k + 1].1.saturating_sub(queue[k].1);
                             if f.samples[k].dur as u64 != want {
                                 out.push(v(
                                     format!("trun.duration|{}", if want > u32::MAX as u64 { "gap-does-not-fit-32-bits-but-segment-emitted" } else { "value" }),
